@@ -8,11 +8,6 @@ Theorem C29_path_roundtrip_refuted_quote : parse_path ascii_only (json_path asci
 Proof. exact quote_key_breaks. Qed.
 Print Assumptions C29_path_roundtrip_refuted_quote.
 
-(* 0.0 is truthy in SQL (its text is not in the list), falsy in Python *)
-Theorem C29_nonzero_refuted_float_zero : json_nonzero (JFloat false 0 [48]) = true /\ py_truthy (JFloat false 0 [48]) = false.
-Proof. exact zero_float_truthy. Qed.
-Print Assumptions C29_nonzero_refuted_float_zero.
-
 (* len() of a dict / str value is 0 in SQL *)
 Theorem C29_len_refuted_dict : json_array_length (JDict [([112], JInt 1); ([113], JInt 2)]) = 0
                             /\ py_len (JDict [([112], JInt 1); ([113], JInt 2)]) = Some 2.
@@ -21,17 +16,6 @@ Print Assumptions C29_len_refuted_dict.
 Theorem C29_len_refuted_str : json_array_length (JStr [115; 116; 114]) = 0 /\ py_len (JStr [115; 116; 114]) = Some 3.
 Proof. exact len_str_wrong. Qed.
 Print Assumptions C29_len_refuted_str.
-
-(* [1,2,3][-4] is 3 on SQLite (Python: IndexError); [1,2,3][-5:] is [2,3]; [1,2,3][:-5] is [1] *)
-Theorem C29_array_index_refuted : sqlite_array_index [1; 2; 3] (-4) = Some 3 /\ arr_get [1; 2; 3] (-4) = None.
-Proof. exact array_index_wraps. Qed.
-Print Assumptions C29_array_index_refuted.
-Theorem C29_array_slice_refuted_start : sqlite_array_slice [1; 2; 3] (Some (-5)) None = [2; 3] /\ py_slice [1; 2; 3] (Some (-5)) None = [1; 2; 3].
-Proof. exact array_slice_wraps. Qed.
-Print Assumptions C29_array_slice_refuted_start.
-Theorem C29_array_slice_refuted_stop : sqlite_array_slice [1; 2; 3] None (Some (-5)) = [1] /\ py_slice [1; 2; 3] None (Some (-5)) = [].
-Proof. exact array_slice_stop_wraps. Qed.
-Print Assumptions C29_array_slice_refuted_stop.
 
 (* e.j[p] == 0 is true for a stored string / list / dict (CAST(text AS integer) = 0); e.j[p] == '7' is true for a stored int 7 *)
 Theorem C29_eq_int_refuted_str : json_eq_int (JStr [115; 116; 114]) 0 = true /\ py_eq_int (JStr [115; 116; 114]) 0 = false.
